@@ -86,6 +86,9 @@ type respClient struct {
 	// SendAfter > 0: when the drain is over the client sends one more message of about that many bytes (what
 	// the response left behind - packet size, queue state - is used by the next request).
 	SendAfter int
+	// PollEvery > 0: the consumer never blocks in the library: it polls (wait=false) and sleeps that long when
+	// nothing is ready.
+	PollEvery time.Duration
 	// AnswerAfter: the peer answers the request sent after the drain (SendAfter) with this valid response and the
 	// client reads it: what the first response left behind in the channel (receive queue, last format, end-of-
 	// message state) meets well-formed data. Only safety is judged (AfterRecs is informational).
@@ -374,8 +377,17 @@ func runResp(cfg simrt.Config, d respDelivery, c respClient) *respResult {
 		if maxErrs == 0 {
 			maxErrs = 4
 		}
-		for n := 0; n < 2000; n++ {
-			pkg, err := ch.NextPackage(ctx, true)
+		for n := 0; n < 20000; n++ {
+			pkg, err := ch.NextPackage(ctx, c.PollEvery == 0)
+			if c.PollEvery > 0 && errors.Is(err, tds.ErrNoPackageReady) {
+				// a consumer that polls: nothing there yet, look again a little later
+				if ctx.Err() != nil {
+					res.Recs = append(res.Recs, recErr(ctx.Err()))
+					break
+				}
+				simrt.Sleep(c.PollEvery)
+				continue
+			}
 			if err != nil {
 				res.Recs = append(res.Recs, recErr(err))
 				consecutiveErrs++
